@@ -306,7 +306,7 @@ def _proj(prop, line):
     return line
 
 
-def world_family(name, test_regex, fn, monitor_cls, prop, scenario_marker, rule, n_quick, n_thorough, env=None):
+def world_family(name, test_regex, fn, monitor_cls, prop, scenario_marker, rule, n_quick, n_thorough, env=None, compare="view"):
     """An L-frame world: lines are compared in the property's view; the
     implementation lines are fed to the specification monitor and only this
     property's violations count here."""
@@ -371,7 +371,12 @@ def world_family(name, test_regex, fn, monitor_cls, prop, scenario_marker, rule,
                 continue
             if not scen_ok:
                 continue      # after the first divergence the rest of a scenario is not comparable
-            pi, pm = _proj(prop, im), _proj(prop, mo)
+            if compare == "contains":     # the model predicts part of the line (a sub-string)
+                pi, pm = (mo if mo in im else im), mo
+            elif compare == "full":
+                pi, pm = im, mo
+            else:
+                pi, pm = _proj(prop, im), _proj(prop, mo)
             if pi != pm and not alt_match(pi, pm):
                 scen_ok = False
                 fr.failures.append({"kind": "corr", "key": "corr-" + fn,
@@ -423,6 +428,22 @@ def W1(prop):
     return world_family("w1", "^TestW1Random$", "w1", MON.W1Monitor, prop, "svc ", _W1_RULE, 150, 4000)
 
 
+def REGISTRY(prop):
+    return world_family("registry", "^TestW2Registry$", "registry", MON.NullMonitor, prop, "r.init",
+                        "W2 registry: real TunnelServiceHandler and ReverseTunnelServers over grpc-go on bufconn in a synctest bubble; histories of "
+                        "open (colliding / absent affinity keys), close from either end, routed RPCs through AsChannel / KeyAsChannel (the serving "
+                        "instance reports itself and what its context carries), Ready / WaitForReady / AllReverseTunnels; every line compared with the "
+                        "two-level round-robin registry model", 60, 1500, compare="full")
+
+
+def LIFECYCLE(prop):
+    return world_family("lifecycle", "^TestW2Lifecycle$", "lifecycle", MON.LifecycleMonitor, prop, "l.init",
+                        "W2 lifecycle: one ReverseTunnelServer with several Serve calls over grpc-go on bufconn, echo and non-reading in-flight RPCs, "
+                        "GracefulStop / Stop / peer hang-up / new RPCs / new Serve calls at arbitrary points, virtual-time ticks of one hour; the "
+                        "state machine (state, instances) is compared with the model, everything else is judged by the lifecycle monitor",
+                        60, 1500, compare="contains")
+
+
 def SWORLD(prop):
     return world_family("sworld", "^TestSWorldRandom$", "sworld", MON.SWorldMonitor, prop, "svc ", _SWORLD_RULE, 300, 6000)
 
@@ -434,6 +455,13 @@ def tiered(quick, thorough):
 
 
 PROPS = {
+    "C07": {
+        "lean_targets": ["Proofs.Props.C07"],
+        "prop_files": ["Proofs/Props/C07.lean"],
+        "families": [W1("C07"), CWORLD("C07"), SWORLD("C07")],
+        "trusted_base": ["L-frame client and server endpoint models; WF invariant of all reachable client states (run_AllWF)"],
+        "assumptions": ["as C08", "schedules below quiescence granularity (the Header()/watcher race is modelled as a two-outcome result; the D4 publication order is the subject of the C02/C15 micro-model)"],
+    },
     "C08": {
         "lean_targets": ["Proofs.Props.C08"],
         "prop_files": ["Proofs/Props/C08.lean"],
@@ -456,14 +484,14 @@ PROPS = {
     "C10": {
         "lean_targets": ["Proofs.Props.C10"],
         "prop_files": ["Proofs/Props/C10.lean"],
-        "families": [SWORLD("C10")],
+        "families": [SWORLD("C10"), W1("C10"), LIFECYCLE("C10")],
         "trusted_base": ["L-frame server endpoint model TunnelModel/LFrame/Server.lean (closing flag in createStream)"],
         "assumptions": ["as C08"],
     },
     "C16": {
         "lean_targets": ["Proofs.Props.C16"],
         "prop_files": ["Proofs/Props/C16.lean"],
-        "families": [SWORLD("C16"), CWORLD("C16")],
+        "families": [SWORLD("C16"), CWORLD("C16"), W1("C16")],
         "trusted_base": ["L-frame server endpoint model TunnelModel/LFrame/Server.lean (readMsg look-ahead, numSent guard)"],
         "assumptions": ["as C08"],
     },
@@ -492,6 +520,11 @@ PROPS = {
         "families": [W1("C03"), SWORLD("C03"), CWORLD("C03")],
         "trusted_base": ["L-frame server endpoint model TunnelModel/LFrame/Server.lean; client endpoint model TunnelModel/LFrame/Client.lean"],
         "assumptions": ["as C08", "bounded transport buffering (finite K) is represented by the loop-idle observation B=1 of the harness, not by a theorem yet"],
+    },
+    "C04": {
+        "lean_targets": ["Proofs.Props.C09"],
+        "prop_files": [],
+        "families": [W1("C04"), LIFECYCLE("C04"), CWORLD("C04")],
     },
     "C05": {
         "lean_targets": ["Proofs.Props.C05"],
